@@ -310,21 +310,9 @@ func checkID(ctx *pbt.Ctx, c IDCase) error {
 			if e == nil {
 				return fmt.Errorf("%s guessed a size although an unsigned input has a missing/unsupported spent script (%v)", names[i], rerr)
 			}
-			isMissing, isUnsup := errors.Is(e, bt.ErrEmptyPreviousTxScript), errors.Is(e, bt.ErrUnsupportedScript)
-			switch {
-			case both:
-				if !isMissing && !isUnsup {
-					return fmt.Errorf("%s: error %q is neither ErrEmptyPreviousTxScript nor ErrUnsupportedScript", names[i], e)
-				}
-			case errors.Is(rerr, ref.ErrFeeMissingPrev):
-				if !isMissing {
-					return fmt.Errorf("%s: spent script missing, error %q is not ErrEmptyPreviousTxScript", names[i], e)
-				}
-			default:
-				if !isUnsup {
-					return fmt.Errorf("%s: spent script unsupported, error %q is not ErrUnsupportedScript", names[i], e)
-				}
-			}
+			// the statement asks for AN error ("reports an error rather than guessing"); which sentinel, wrapped or
+			// not, is the library's choice (benign change C11-b2-1 reports a zero-length script as 'not supplied')
+			_ = both
 		}
 		if estOK {
 			return fmt.Errorf("EstimateIsFeePaidEnough returned true together with an error")
